@@ -111,10 +111,13 @@ def spdx(
             out = stack.enter_context(output.open())  # type: ignore
         else:
             out = sys.stdout
-        click.echo(
+        # The document is data, not a message for a terminal: click.echo would
+        # remove ANSI escape sequences from it (a copyright line or a licence
+        # text may contain them) whenever *out* is not a terminal.
+        out.write(
             report.bill_of_materials(
                 creator_person=creator_person,
                 creator_organization=creator_organization,
-            ),
-            file=out,
+            )
         )
+        out.write("\n")
